@@ -498,15 +498,19 @@ def exec : List Ev → QState → M QState
 
 def fuelFor (s : List Char) : Nat := 40 * (s.length + 10)
 
-/-- `pql.ParseString` over a rule table. -/
-def parseWith (rule : Nat → PExpr) (start : Nat) (s : List Char) : M (List Call) :=
-  match run rule (fuelFor s) (.ref start) s with
+/-- `pql.ParseString` over a rule table, with `n` units of interpreter fuel. -/
+def parseFuel (rule : Nat → PExpr) (start : Nat) (n : Nat) (s : List Char) : M (List Call) :=
+  match run rule n (.ref start) s with
   | .fuel => .error .fuel
   | .fail => .error .syntax
   | .ok _ evs =>
     match exec evs {} with
     | .ok q => .ok q.calls
     | .error e => .error e
+
+/-- `pql.ParseString` as the driver runs it. -/
+def parseWith (rule : Nat → PExpr) (start : Nat) (s : List Char) : M (List Call) :=
+  parseFuel rule start (fuelFor s) s
 
 /-! ## Call.String -/
 
